@@ -39,6 +39,10 @@ def cases(tier, rng):
             cfg = cards.rand_config(rng, process=cards.pick(rng, ["NC", "EM"]), ptos=ptos, sv=True)
             if cfg["theory"]["FNS"] in ("FFNS", "FFN0") and rng.random() < 0.3:
                 cfg["theory"]["NfFF"] = 6  # all quarks massless
+            if i % 8 == 3:
+                # one runner serving points with different nf (runner-wide scale-variation state): nf=4 first, then nf=5
+                cfg["theory"].update(FNS="ZM-VFNS", FactScaleVar=True, PTO=max(1, cfg["theory"]["PTO"]), PTODIS=max(1, cfg["theory"]["PTO"]))
+                cfg["span"] = True
         else:
             cfg = cards.rand_config(rng, process="NC", ptos=ptos, sv=True)
             cfg["obs"]["ProjectileDIS"] = cards.pick(rng, ["electron", "positron"])
@@ -51,6 +55,8 @@ def cases(tier, rng):
         if rng.random() < 0.3:
             cfg["obs"]["TargetDIS"] = cards.pick(rng, ["neutron", "iron", "isoscalar"])
         pts = cards.rand_points(rng, g["xgrid"], n=2, q2lo=3.0, q2hi=1e4)
+        if cfg.pop("span", False):
+            pts[0]["Q2"], pts[1]["Q2"] = float(rng.uniform(4.0, 0.8 * cfg["theory"]["mb"] ** 2)), cards.logu(rng, 1.5 * cfg["theory"]["mb"] ** 2, 1e4)
         out.append(dict(id=f"c13-{i}", rel=rel, kind=kind, heavy=heavy, grid=g, points=pts, **cfg))
     return out
 
